@@ -129,15 +129,24 @@ def check_block_signatures(nodes: typing.List[ValidatorDescr], signatures: typin
 
         node_map[calculate_node_id_short(node.public_key.pubkey)] = node
 
+    if not node_map:
+        raise ProofError('empty validator set')
+
     to_sign = b'pn\x0b\xc5' + blk.root_hash + blk.file_hash  # bytes.fromhex('c50b6e70')[::-1] - magic
     i = 0
+    seen = set()
     for sig in signatures:
-        node = node_map.get(bytes.fromhex(sig['node_id_short']))
+        node_id = bytes.fromhex(sig['node_id_short'])
+        node = node_map.get(node_id)
         node: ValidatorDescr
         i += 1
 
         if node is None:
             raise ProofError('cannot find node_id_short in validator list')
+
+        if node_id in seen:
+            raise ProofError('duplicate signature of the same validator')
+        seen.add(node_id)
 
         result = verify_sign(public_key=node.public_key.pubkey, signed_message=to_sign, signature=sig['signature'])
 
@@ -146,7 +155,7 @@ def check_block_signatures(nodes: typing.List[ValidatorDescr], signatures: typin
 
         signed_weight += node.weight
 
-    if signed_weight * 3 >= total_weight * 2:  # >= 2/3
+    if signed_weight * 3 > total_weight * 2:  # strictly more than 2/3, as in check-proof.cpp
         return
 
     raise ProofError(f'Block {blk} has not been signed by 2/3 of validators')
